@@ -109,10 +109,10 @@ type ContractFile struct {
 	Axioms    []*Clause
 }
 
-var headRe = regexp.MustCompile(`^(func|iface|assume|type|spec|uninterpreted|axiom|lemma)\b\s*(.*)$`)
+var headRe = regexp.MustCompile(`^(func|iface|assume|type|spec|uninterpreted|axiom|lemma|sweep)\b\s*(.*)$`)
 var clauseKw = map[string]bool{"assumes": true, "defines": true, "requires": true, "ensures": true, "panics": true, "split": true, "loop": true, "modifies": true,
 	"immutable": true, "invariant": true, "view": true, "ghost": true, "mode": true, "inline": true, "refines": true,
-	"pure": true, "property": true, "nopanic": true, "safety": true, "havoc": true, "fresh": true, "opt": true}
+	"pure": true, "property": true, "nopanic": true, "trusted": true, "safety": true, "havoc": true, "fresh": true, "opt": true}
 
 func mustClause(text, where string) *Clause {
 	e, err := ParseExpr(text)
@@ -257,6 +257,22 @@ func ParseContractFile(path, pkgPath string) (cf *ContractFile, err error) {
 				cf.Funcs = append(cf.Funcs, sf)
 			case "axiom":
 				cf.Axioms = append(cf.Axioms, mustClause(rest, where))
+			case "sweep":
+				// sweep <property> : f1, f2, ...   -- safety-only contracts without preconditions:
+				// no runtime fault for any argument values (machine arithmetic modelled exactly,
+				// callee preconditions assumed and listed)
+				parts := strings.SplitN(rest, ":", 2)
+				if len(parts) != 2 {
+					panic(fmt.Errorf("%s: sweep needs 'property: functions'", where))
+				}
+				prop := strings.TrimSpace(parts[0])
+				for _, name := range strings.FieldsFunc(parts[1], func(r rune) bool { return r == ',' || r == ' ' }) {
+					c := &Contract{Kind: "func", Key: name + "#sweep", Loops: map[string]*LoopSpec{}, File: path,
+						Opts: map[string]string{"wrap-signed": "yes", "assume-callee-pre": "yes", "noframe": "yes"},
+						SafetyOnly: true, Property: []string{prop}}
+					cf.Contracts = append(cf.Contracts, c)
+				}
+				cur = nil
 			case "lemma":
 				c := &Contract{Kind: "lemma", Key: rest, Loops: map[string]*LoopSpec{}, File: path, Opts: map[string]string{}}
 				cf.Contracts = append(cf.Contracts, c)
@@ -310,6 +326,9 @@ func ParseContractFile(path, pkgPath string) (cf *ContractFile, err error) {
 			cur.Panics = append(cur.Panics, mustClause(rest, where))
 		case "nopanic":
 			cur.NoPanic = true
+		case "trusted":
+			// contract used at call sites but not verified against the body (listed as an assumption)
+			cur.Trusted = true
 		case "modifies":
 			for _, part := range splitTop(rest, ',') {
 				cur.Modifies = append(cur.Modifies, mustClause(part, where))
